@@ -21,13 +21,13 @@ def _tier(tier):
         return dict(mc=["Runner_nopre.cfg", "Runner_pre.cfg"],
                     covers=[("Runner_evict_cover.cfg", NOPRE_ROLES, 3, 260, 150, 100),
                             ("Runner_evict_pre_cover.cfg", PRE_ROLES, 2, 300, 180, 80)],
-                    random_runs=120)
+                    random_runs=120, record_runs=150, chunk_lines=1700)
     return dict(mc=["Runner_nopre.cfg", "Runner_pre.cfg"],
                 covers=[("Runner_nopre_cover.cfg", NOPRE_ROLES, 3, None, 0, 5000),
                         ("Runner_pre_cover.cfg", PRE_ROLES, 2, 4000, 0, 2000),
                         ("Runner_evict_cover.cfg", NOPRE_ROLES, 3, None, 0, 4000),
                         ("Runner_evict_pre_cover.cfg", PRE_ROLES, 2, 5000, 3000, 2000)],
-                random_runs=4000)
+                random_runs=4000, record_runs=3000, chunk_lines=6000)
 
 
 # (cfg, roles, removed / changed guard)
@@ -118,6 +118,236 @@ def _drive(binp, wd, name, behs, roles, maxsig, seed, verdict, allroles=False):
     res = json.load(open(outp))
     _collect(res, verdict, "%s#roles=%s;maxsig=%d;seed=%d;all=%d" % (inp, roles, maxsig, seed, 1 if allroles else 0))
     return res
+
+
+# ----------------------------------------------------------------------------------------
+# implementation -> specification: executions recorded from the real runners, validated by spec/RunnerTrace.tla
+# ----------------------------------------------------------------------------------------
+TRACE_MODULE = "RunnerTrace"
+TRACE_CFG = {False: "RunnerTrace_nopre.cfg", True: "RunnerTrace_pre.cfg"}
+TRACE_INVARIANTS = {
+    "TSigPost": "a duty object was signed outside the window: not caused by a consensus message of this validator and role for the "
+                "height of the running, unfinished duty's instance, or not contained in the decided, validated value",
+    "TSigPre": "a validator-key signature that is neither a duty object nor the pre-consensus proof of the slot of the duty being started",
+    "TSigOnce": "a decided duty object was signed twice",
+    "TSigOnceDetached": "a decided duty object was signed twice (running instance dropped by the controller before it decided)",
+}
+
+
+def _trace_cfg(cfg, variant):
+    txt = open(os.path.join(vlib.SPEC, cfg)).read()
+    if variant == "fixed":
+        txt = txt.replace('PrevDec = "code"', 'PrevDec = "fixed"')
+        txt = txt.replace("INVARIANT TSigOnce\n", "INVARIANT TSigOnce\nINVARIANT TSigOnceDetached\n")
+    return txt
+
+
+def _validate_lines(lines, pre, variant, name, timeout=1800):
+    """TLC on one concatenation of recorded executions. -> dict(status accepted|rejected|violated, line (1-based line of the
+    event that was not explained / on whose state an invariant failed), invariant, generated)"""
+    cfg = TRACE_CFG[pre]
+    r = None
+    for _ in range(3):
+        r = vlib.tlc(TRACE_MODULE, cfg, name=name, workers=1, timeout=timeout, depth_first=True, heap="3g",
+                     files={"trace.ndjson": "\n".join(lines) + "\n", cfg: _trace_cfg(cfg, variant)})
+        if r.violation or r.error or r.finished or r.depth:
+            break
+        log("[C03] trace validation %s ended without a result after %.0fs (killed?) - repeating" % (name, r.wall))
+    post = "TraceAccepted" in r.out and ("is false" in r.out or "violated" in r.out)
+    if r.violation:
+        if r.violation not in TRACE_INVARIANTS and r.violation != "TExplained":
+            raise vlib.MachineryError("trace validation %s: unexpected TLC violation %s" % (name, r.violation))
+        line = r.depth - 1
+        if r.trace and isinstance(r.trace[-1].get("l"), int):
+            line = r.trace[-1]["l"] - 1
+        if r.violation == "TExplained":
+            # the call made signatures, none of them broke a C03 invariant (those are checked first), but its error flag /
+            # projection is not what Runner predicts: a conformance divergence at that event
+            return {"status": "rejected", "line": line, "invariant": None, "generated": r.generated, "wall": r.wall}
+        return {"status": "violated", "line": line, "invariant": r.violation, "generated": r.generated, "wall": r.wall}
+    if r.error and not post:
+        raise vlib.MachineryError("TLC error during trace validation %s: %s" % (name, r.error))
+    if r.depth == 0 and not post:
+        raise vlib.MachineryError("trace validation %s produced no result:\n%s" % (name, r.out[-1500:]))
+    consumed = max(0, r.depth - 1)
+    if consumed == len(lines) and not post:
+        return {"status": "accepted", "line": consumed, "invariant": None, "generated": r.generated, "wall": r.wall}
+    return {"status": "rejected", "line": consumed + 1, "invariant": None, "generated": r.generated, "wall": r.wall}
+
+
+def _run_bounds(lines, line):
+    """[first, last) line indices (0-based) of the execution that contains the 1-based line"""
+    i = min(max(line - 1, 0), len(lines) - 1)
+    a = i
+    while a > 0 and '"event":"Reset"' not in lines[a]:
+        a -= 1
+    b = i + 1
+    while b < len(lines) and '"event":"Reset"' not in lines[b]:
+        b += 1
+    return a, b
+
+
+def _chunks(lines, maxlines):
+    out, cur = [], []
+    for ln in lines:
+        if '"event":"Reset"' in ln and len(cur) >= maxlines:
+            out.append(cur)
+            cur = []
+        cur.append(ln)
+    if cur:
+        out.append(cur)
+    return out
+
+
+def _retrace(binp, wd, path, name):
+    outp = os.path.join(wd, name + "_result.json")
+    rec = os.path.join(wd, name + "_rerecorded.ndjson")
+    vlib.run_driver(binp, ["-mode", "retrace", "-in", path, "-out", outp, "-retrace-out", rec], timeout=1200)
+    return json.load(open(outp)), rec
+
+
+_stat_lock = __import__("threading").Lock()
+
+
+def _validate_chunk(lines, pre, variant, name, binp, wd, verdict, stat):
+    """validates one chunk; an execution that is rejected / violates an invariant is cut out and the rest is validated again"""
+    for attempt in range(4):
+        if not lines:
+            return
+        v = _validate_lines(lines, pre, variant, "%s-%d" % (name, attempt))
+        nruns = len([1 for x in lines if '"event":"Reset"' in x])
+        with _stat_lock:
+            stat["generated"] += v["generated"]
+            if v["status"] == "accepted":
+                stat["accepted_runs"] += nruns
+                stat["accepted_events"] += len(lines) - nruns
+        if v["status"] == "accepted":
+            return
+        a, b = _run_bounds(lines, v["line"])
+        bad = lines[v["line"] - 1] if 0 < v["line"] <= len(lines) else "?"
+        head = json.loads(lines[a])
+        if v["status"] == "violated":
+            # an invariant of C03 failed on a state of a trace recorded from the real code: violation; the replay is the
+            # recorded call sequence, which is also re-run on fresh real runners under the Go monitor right away
+            sl = lines[a:v["line"]]
+            rp = vlib.save_replay(PROP, "trace-%s-run%s-%s.ndjson" % (head.get("role"), head.get("run"), v["invariant"]), "\n".join(sl) + "\n")
+            res, _ = _retrace(binp, wd, rp, "retrace_" + name)
+            path = "retrace:%s#variant=%s" % (rp, variant)
+            desc = "%s [recorded execution %s of role %s, event %d: %s]" % (TRACE_INVARIANTS[v["invariant"]], head.get("run"), head.get("role"),
+                                                                           v["line"] - a - 1, bad[:300])
+            if res["violations"]:
+                for x in res["violations"]:
+                    verdict.violation(x["signature"], "%s; trace invariant %s: %s" % (x["description"], v["invariant"], desc), path)
+            else:
+                verdict.violation("trace-" + v["invariant"], desc, path)
+            stat["invariant_violations"].append({"invariant": v["invariant"], "role": head.get("role"), "run": head.get("run"), "event": bad[:400],
+                                                 "go_monitor": [x["signature"] for x in res["violations"]], "replay": path})
+        else:
+            log("[C03] recorded execution %s of role %s REJECTED by RunnerTrace at its event %d: %s" % (head.get("run"), head.get("role"), v["line"] - a - 1, bad[:400]))
+            stat["rejected"].append({"role": head.get("role"), "run": head.get("run"), "event_index": v["line"] - a - 1, "event": bad[:400]})
+        lines = lines[:a] + lines[b:]
+    with _stat_lock:
+        stat["not_validated_runs"] += len([1 for x in lines if '"event":"Reset"' in x])
+
+
+def _trace_selftest(lines, variant):
+    """the binding is real: a corrupted field and a dropped event must be rejected where they are, an injected signature must
+    violate the invariant where it is"""
+    resets = [i for i, x in enumerate(lines) if '"event":"Reset"' in x]
+    evs = [json.loads(x) for x in (lines[:resets[12]] if len(resets) > 12 else lines)]
+
+    def find(pred, start=0):
+        for i, e in enumerate(evs):
+            if i >= start and e["event"] != "Reset" and pred(e):
+                return i
+        return None
+
+    def dump(es):
+        return [json.dumps(e, separators=(",", ":")) for e in es]
+
+    import copy
+    jobs = []
+    i = find(lambda e: e["event"] == "Decided" and e["obs"]["ctrlH"] > 1, 10)
+    if i is not None:
+        e2 = copy.deepcopy(evs)
+        e2[i]["obs"]["ctrlH"] -= 1
+        jobs.append(("field", "obs.ctrlH of the Decided event at line %d lowered by one" % (i + 1), e2, "rejected", i + 1))
+    i = None
+    for k in range(10, len(evs) - 4):   # not the last events of an execution: dropping those cannot be noticed
+        if evs[k]["event"] == "StartDuty" and not evs[k]["err"] and all(e["event"] != "Reset" for e in evs[k + 1:k + 4]):
+            i = k
+            break
+    if i is not None:
+        e2 = copy.deepcopy(evs)
+        del e2[i]
+        jobs.append(("drop", "successful StartDuty event at line %d dropped" % (i + 1), e2, "rejected", None))
+    j = find(lambda e: e["sigs"] and e["sigs"][0]["k"] == "post")
+    i = find(lambda e: e["event"] == "Foreign", j or 0) if j is not None else None
+    if i is not None:
+        e2 = copy.deepcopy(evs)
+        e2[i]["sigs"] = copy.deepcopy(evs[j]["sigs"])
+        jobs.append(("inject", "the duty-object signature of line %d copied into the Foreign event at line %d" % (j + 1, i + 1), e2, "violated", i + 1))
+    if j is not None:
+        e2 = copy.deepcopy(evs)
+        e2[j]["sigs"] = []
+        jobs.append(("undersign", "the duty-object signature of line %d removed" % (j + 1), e2, "rejected", j + 1))
+    out = {}
+    from concurrent.futures import ThreadPoolExecutor
+    with ThreadPoolExecutor(max_workers=5) as ex:
+        base = ex.submit(_validate_lines, dump(evs), False, variant, "RunnerTrace-selftest-base", 600)
+        futs = [(job, ex.submit(_validate_lines, dump(job[2]), False, variant, "RunnerTrace-selftest-" + job[0], 600)) for job in jobs]
+        if base.result()["status"] != "accepted":
+            # a tree whose executions the specification does not explain: nothing to corrupt (reported as divergences elsewhere)
+            for _, f in futs:
+                f.result()
+            return {"skipped": "the uncorrupted prefix of the recorded trace is itself not accepted (%s at line %d)" %
+                               (base.result()["status"], base.result()["line"])}
+        for job, f in futs:
+            v = f.result()
+            key, what, _, want, at = job
+            # a dropped call is noticed either as an unexplained event or, when a later call signs, by a C03 invariant
+            ok = v["status"] in ("rejected", "violated") if key == "drop" else (v["status"] == want and (at is None or v["line"] == at))
+            if not ok:
+                raise vlib.MachineryError("binding self-test failed: %s -> %s at line %s (expected %s%s)" %
+                                          (what, v["status"], v["line"], want, " at line %d" % at if at else ""))
+            out[key] = "%s: %s at line %d%s" % (what, v["status"], v["line"], " (%s)" % v["invariant"] if v["invariant"] else "")
+    if len(out) < 2:
+        raise vlib.MachineryError("binding self-test found nothing to corrupt in the recorded trace")
+    return out
+
+
+def _record_and_validate(binp, wd, T, seed, variant, verdict):
+    """records seeded random executions of the real runners (not derived from TLC behaviours) and lets TLC validate them"""
+    from concurrent.futures import ThreadPoolExecutor
+    # own directory per tree under test and seed: trial runs against scratch copies share .work/C03 with the real tree
+    wd = os.path.join(wd, "trace-%s-seed%d" % (os.path.basename(os.path.dirname(vlib.BINDIR)).lstrip("."), seed))
+    os.makedirs(wd, exist_ok=True)
+    trn, trp, outr = os.path.join(wd, "trace_nopre.ndjson"), os.path.join(wd, "trace_pre.ndjson"), os.path.join(wd, "record_result.json")
+    _, wall = vlib.run_driver(binp, ["-mode", "record", "-out", outr, "-seed", str(seed), "-runs", str(T["record_runs"]),
+                                     "-trace-nopre", trn, "-trace-pre", trp], timeout=3000)
+    res = json.load(open(outr))
+    _collect(res, verdict, "record:seed=%d;runs=%d" % (seed, T["record_runs"]))
+    stat = {"recorded_runs": res["behaviours"], "recorded_events": res["steps"], "record_wall_s": round(wall, 1),
+            "runs_with_signature": res["nontrivial"], "calls_with_signatures": res["counters"].get("record_calls_with_signatures", 0),
+            "runs_per_role": {k[len("record_runs_"):]: v for k, v in res["counters"].items() if k.startswith("record_runs_")},
+            "accepted_runs": 0, "accepted_events": 0, "generated": 0, "rejected": [], "invariant_violations": [], "not_validated_runs": 0,
+            "prevdec_variant": variant}
+    t0 = time.time()
+    fam = {False: [x for x in open(trn).read().split("\n") if x.strip()], True: [x for x in open(trp).read().split("\n") if x.strip()]}
+    jobs = []
+    for pre, lines in fam.items():
+        for k, ch in enumerate(_chunks(lines, T["chunk_lines"])):
+            jobs.append((ch, pre, "RunnerTrace-%s-%d" % ("pre" if pre else "nopre", k)))
+    stat["chunks"] = len(jobs)
+    with ThreadPoolExecutor(max_workers=5) as ex:
+        fs = [ex.submit(_validate_chunk, ch, pre, variant, name, binp, wd, verdict, stat) for ch, pre, name in jobs]
+        fst = ex.submit(_trace_selftest, fam[False], variant)
+        for f in fs:
+            f.result()
+        stat["binding_selftest"] = fst.result()
+    stat["validate_wall_s"] = round(time.time() - t0, 1)
+    sample = fam[True][1:6]
+    return res, stat, sample
 
 
 def run(tier, seed):
@@ -230,6 +460,19 @@ def run(tier, seed):
     account(res)
     cov["random_runs"] = res["behaviours"]
 
+    # 5. implementation -> specification: random executions recorded from the real runners, validated by RunnerTrace.tla
+    rres, tstat, tsample = _record_and_validate(binp, wd, T, seed, variant, verdict)
+    steps += rres["steps"]
+    replayed += tstat["accepted_runs"]
+    nontrivial += rres["nontrivial"]
+    transitions += tstat["generated"]
+    cov["divergences"] += len(tstat["rejected"])
+    cov["recorded_traces"] = tstat
+    samples.append(tsample)
+    log("[C03] recorded %d executions / %d events from the real runners: %d accepted by RunnerTrace, %d rejected, %d invariant violations (%.0fs + %.0fs)" %
+        (tstat["recorded_runs"], tstat["recorded_events"], tstat["accepted_runs"], len(tstat["rejected"]), len(tstat["invariant_violations"]),
+         tstat["record_wall_s"], tstat["validate_wall_s"]))
+
     rc = verdict.report()
     if cov["divergences"] and rc == 0:
         log("[C03] NOTE: %d conformance divergences without a monitor trip (see evidence)" % cov["divergences"])
@@ -241,8 +484,9 @@ def run(tier, seed):
         "distinct_nontrivial": nontrivial,
         "rule": "behaviours = BFS-tree leaves of the dumped state graphs (seeded sample in quick) + seeded non-tree edges, rotated over the "
                 "roles of the family (no pre-consensus: attester, sync committee; pre-consensus: proposer full/blinded, aggregator, "
-                "contribution) + attack traces on every role + seeded random executions at single-message grain; "
-                "non-trivial = the real key manager made at least one validator-key signature",
+                "contribution) + attack traces on every role + seeded random executions at single-message grain + executions "
+                "recorded from the real runners (seeded random schedules of single public calls, every role) accepted by the trace "
+                "specification RunnerTrace; non-trivial = the real key manager made at least one validator-key signature",
         "exhaustive": exhaustive,
         "detail": cov,
     }
@@ -264,6 +508,25 @@ def replay(path):
     if path.startswith("random:"):
         kv = dict(x.split("=") for x in path[len("random:"):].split(";"))
         vlib.run_driver(binp, ["-mode", "random", "-out", outp, "-seed", kv["seed"], "-runs", kv["runs"]])
+    elif path.startswith("record:"):
+        kv = dict(x.split("=") for x in path[len("record:"):].split(";"))
+        vlib.run_driver(binp, ["-mode", "record", "-out", outp, "-seed", kv["seed"], "-runs", kv["runs"],
+                               "-trace-nopre", os.path.join(wd, "replay_nopre.ndjson"), "-trace-pre", os.path.join(wd, "replay_pre.ndjson")])
+    elif path.startswith("retrace:"):
+        # a recorded call sequence: re-run it on fresh real runners under the Go monitor, then let TLC judge the freshly
+        # recorded events of that run with the invariants of the trace specification
+        f, _, params = path[len("retrace:"):].partition("#")
+        kv = dict(x.split("=") for x in params.split(";")) if params else {}
+        res, rec = _retrace(binp, wd, f, "replay_retrace")
+        _collect(res, verdict, path)
+        lines = [x for x in open(rec).read().split("\n") if x.strip()]
+        v = _validate_lines(lines, json.loads(lines[0])["pre"], kv.get("variant", "fixed"), "RunnerTrace-replay")
+        log("[C03] re-recorded %d events on fresh runners: Go monitor %s; RunnerTrace: %s%s" %
+            (len(lines) - 1, [x["signature"] for x in res["violations"]] or "silent", v["status"],
+             " (%s at event %d: %s)" % (v["invariant"] or "not explained", v["line"] - 1, lines[v["line"] - 1][:300]) if v["status"] != "accepted" else ""))
+        if v["status"] == "violated" and not res["violations"]:
+            verdict.violation("trace-" + v["invariant"], TRACE_INVARIANTS[v["invariant"]], path)
+        return verdict.report()
     else:
         f, _, params = path.partition("#")
         kv = dict(x.split("=") for x in params.split(";")) if params else {}
